@@ -13,8 +13,23 @@ PROMPT = re.compile(r'lace~ [^\x1b]*\x1b\[\d+G$')
 HIST_NAME = "lace-debugger-history"
 
 
-def key_bytes(k):
-    return (k["c"] if k["k"] == "char" else KEYSEQ[k["k"]]).encode("utf-8")
+# the "CSI u" / "CSI 1;mod:kind X" encodings a terminal with the keyboard-enhancement protocol sends: kind 1 = press, 2 = auto-repeat of a held key,
+# 3 = release.  Press and repeat are key presses to an editor; a release is nothing.
+_CSI_FINAL = {"left": "D", "right": "C", "up": "A", "down": "B", "ctrlleft": "D", "ctrlright": "C"}
+_CSI_CODE = {"enter": 13, "backspace": 127}
+
+
+def key_bytes(k, kind=None):
+    kind = kind or {"press": 1, "repeat": 2, "release": 3}.get(k.get("w"))
+    if not kind:
+        return (k["c"] if k["k"] == "char" else KEYSEQ[k["k"]]).encode("utf-8")
+    if k["k"] == "char":
+        return ("\x1b[%d;1:%du" % (ord(k["c"]), kind)).encode()
+    if k["k"] in _CSI_CODE:
+        return ("\x1b[%d;1:%du" % (_CSI_CODE[k["k"]], kind)).encode()
+    if k["k"] == "delete":
+        return ("\x1b[3;1:%d~" % kind).encode()
+    return ("\x1b[1;%d:%d%s" % (5 if k["k"].startswith("ctrl") else 1, kind, _CSI_FINAL[k["k"]])).encode()
 
 
 class Pty:
@@ -102,7 +117,7 @@ def editor_session(lace, asm, cache_dir, init_hist, keys, mode="single", cols=0)
     seen = p.read_until(at_prompt, limit=30.0)
     if seen:
         if mode == "burst":
-            p.send(b"".join(key_bytes(k) for k in keys))
+            p.send(b"".join(key_bytes(k) + (key_bytes(k, 3) if k.get("rel") else b"") for k in keys))
             p.read_until(at_prompt, quiet=0.4, limit=20.0)
         else:
             for k in keys:
@@ -110,6 +125,10 @@ def editor_session(lace, asm, cache_dir, init_hist, keys, mode="single", cols=0)
                 p.send(key_bytes(k))
                 # every key is answered by a redraw of the prompt line
                 p.read_until(lambda t: len(p.out) > before and at_prompt(t), quiet=0.15, limit=10.0)
+                if k.get("rel"):
+                    # the key goes up again: a release event, which is not a key press (nothing is redrawn)
+                    p.send(key_bytes(k, 3))
+                    p.read_until(at_prompt, quiet=0.1, limit=1.0)
     text = p.text()
     try:
         os.kill(p.pid, signal.SIGKILL)
